@@ -12,6 +12,7 @@ import LbfgsbVerif.Model.Compact
 import LbfgsbVerif.Model.Cauchy
 import LbfgsbVerif.Model.Subspace
 import LbfgsbVerif.Model.FD
+import LbfgsbVerif.Model.Dcsrch
 import Std.Data.HashMap
 
 open Lbfgsb
@@ -97,6 +98,11 @@ def parseRes (s : String) (p : String → Option β) : Option (Except String β)
 instance : FloatLike Float where
   sqrt := Float.sqrt
   isFinite := Float.isFinite
+
+instance : Dcsrch.DcOps Float where
+  sq x := Float.pow x 2.0
+  le a b := decide (a ≤ b)
+  eq a b := a == b
 
 def matsLen : Mats Float → Nat
   | none => 0
@@ -318,6 +324,17 @@ def handleShell (c : Ctx) (toks : List String) : Option (Ctx × List String) :=
       else if path == "rel" then (do let r ← parseF step; some (fun xi => FD.stepRel xi (some r) epsM))
       else some (fun xi => FD.stepRel xi none epsM)
     some (c, [s!"fd {showVs (FD.points sch hOf x lb ub)} {showV (FD.grad sch hOf x lb ub f0 vals)}"])
+  | ["dcsrch", ftol, gtol, xtol, stpmin, stpmax, stp0, answers] => do
+    let ftol ← parseF ftol; let gtol ← parseF gtol; let xtol ← parseF xtol
+    let stpmin ← parseF stpmin; let stpmax ← parseF stpmax; let stp0 ← parseF stp0
+    let ans ← parseVs answers
+    let pairs := ans.map fun v => (v.getD 0 0.0, v.getD 1 0.0)
+    let tr := Dcsrch.trace (Dcsrch.DC.new ftol gtol xtol stpmin stpmax) stp0 .start pairs
+    some (c, ["dcsrch " ++ ";".intercalate (tr.map fun (s, t) => s!"{showF s}:{taskCode t}")])
+  | ["filter", eps, xs, gs] => do
+    let eps ← parseF eps; let X ← parseVs xs; let G ← parseVs gs
+    let r := filterWolfe X G eps
+    some (c, [s!"filter {showVs r.1} {showVs r.2}"])
   | ["compact", xs, gs, v] => do
     let X ← parseVs xs; let G ← parseVs gs; let v ← parseV v
     let bc := compactBv X G v
